@@ -7,6 +7,7 @@ package main
 import (
 	"context"
 	"encoding/binary"
+	"encoding/hex"
 	"fmt"
 	"math/rand"
 	"sort"
@@ -716,6 +717,15 @@ func specList(entry, proto string, thorough bool, rng *rand.Rand) []spec {
 		if j%3 == pi {
 			out = append(out, spec{class: tc[j], base: -1, raw: b})
 		}
+	}
+	// byte sequences that end a stream session with state left in a framed
+	// reader (a rejected size followed by a partial header, a truncated 16 MB
+	// frame, a frame that cannot be executed followed by a partial header):
+	// twice each, so that both delivery variants of an entry point see them
+	for _, h := range []string{"ffffffff00fa0000", "00fa00000102030405060708090a", "8000000000fa0000", "000000010100fa0000",
+		"0000000000fa0000", "00fa0000", "00000005000000000000fa0000", "ffffffff0000", "00fa0001" + strings.Repeat("00", 40)} {
+		b, _ := hex.DecodeString(h)
+		out = append(out, spec{class: "poison", base: -1, raw: b}, spec{class: "poison", base: -1, raw: b})
 	}
 	st := structuredSpecs(role, proto)
 	total, nStruct := 1000, 440
